@@ -69,7 +69,7 @@ func (fr *frame) site() string {
 }
 
 func shortPos(file string, line int) string {
-	file = strings.TrimPrefix(file, "/repo/")
+	file = strings.TrimPrefix(file, repoDir+"/")
 	if i := strings.Index(file, "/pkg/mod/"); i >= 0 {
 		file = file[i+len("/pkg/mod/"):]
 	}
